@@ -15,6 +15,13 @@ answers the i-th request that reaches `mlock(2)`; `failfrom:K` installs a new on
   `mlock(2)` failing on `PROT_NONE` pages) the consumed region is released, zeroed, its pages `rw` and
   unlocked (`lock_err_cleans_up`); a failed constructor leaves the whole kernel exactly as it was
   (`err_create_no_residue`) and does release the block it had sized (`err_fsl_releases_block`).
+* "FAILURE PATH" in this file = a refused (or, on `PROT_NONE` pages, failed) `mlock` request, or the
+  length mismatch of `from_slice_*` on an array.  Every other wrapper is infallible in the model
+  (`opUnlock`, `opProtect`, `opNa` always answer `ok`; `alloc` assumes its three `.ok()`-swallowed
+  `mprotect` calls took effect), whereas the Rust has `dryoc_munlock(..)?` / `dryoc_mprotect_*(..)?`
+  inside `swap_some_or_err`: a failing `munlock(2)` / `mprotect(2)` is NOT REPRESENTABLE here, and
+  none of `result_ops_never_panic`, `err_*`, `lock_err_*` says anything about it
+  (see the header of `Model/Protected.lean`).
 * OUT OF SCOPE (stated, not hidden): the non-`Result` operations `Clone for Locked/LockedRO` and
   `ResizableBytes::resize for Locked` re-lock with `expect` and DO panic when the request is
   refused (`clone_may_panic`, `resize_may_panic`); the invariant C14 survives those panics
@@ -51,7 +58,9 @@ theorem refused_lock_err (c : Cfg) (s : State) (i : Nat) (sl : Slot)
   rw [lockV_refused (m := (resetRel s).m) _ (by omega) hr]
   simp [resetRel]
 
-/-- Every `err` (refusal, kernel failure, length mismatch …) leaves every other slot as it was,
+/-- Every `err` the model can produce (refused `mlock`, `mlock` failing in the kernel on `PROT_NONE`
+pages, length mismatch of `from_slice_*`; NOT a failing `munlock` / `mprotect`, which the model
+cannot represent) leaves every other slot as it was,
 and every page of every other live region — data, spare capacity and both guard pages — keeps its
 permission and its lock flag. -/
 theorem err_preserves_others (c : Cfg) (hP : 0 < c.P) (s : State) (h : Inv c s) (t : Tok)
@@ -76,7 +85,9 @@ theorem err_create_preserves_all (c : Cfg) (s : State) (t : Tok) (hop : t.op ≠
   · exact absurd h1 hop
 
 /-- After a refused `lock` the consumed region is gone, its allocation has been released exactly
-once and wiped (`nonzero = 0`), and every page of it (guards included) is `rw` and unlocked. -/
+once and wiped (`nonzero = 0`), and every page of it (guards included) is `rw` and unlocked.
+(The clean-up itself — `mprotect_readwrite`, `munlock` inside `Drop` — cannot fail in the model;
+in the Rust a failure there is printed and ignored.) -/
 theorem err_cleans_up (c : Cfg) (hP : 0 < c.P) (hw : c.wipe = true) (s : State) (h : Inv c s)
     (i : Nat) (sl : Slot) (hi : s.slots[i]? = some sl) (hg : sl.gone = false)
     (hu : isUnlockedSt sl.o.st = true) (hl : 0 < sl.o.v.len) (hr : s.m.oracle (s.m.cnt + 1) = false) :
@@ -214,7 +225,8 @@ else can) in a state without stray locks (`Tight`, true of every reachable state
 model: `C14.tight_reachable`), then all slots are as before, EVERY page of the kernel has the
 permission and the lock flag it had before — so the block allocated for the half-built region has
 been unlocked, made `rw` and given back —, the number of locked pages is unchanged, and every block
-released on the way was zeroed. -/
+released on the way was zeroed.  (The `err` here is a refused / failed `mlock` or a length
+mismatch; the unlocking and re-protecting done by the clean-up cannot fail in the model.) -/
 theorem err_create_no_residue (c : Cfg) (hP : 0 < c.P) (hw : c.wipe = true) (s : State) (h : Inv c s)
     (ht : Tight c s) (t : Tok) (hop : t.op ≠ .lock) (he : (step c s t).1 = .err) :
     (step c s t).2.slots = s.slots ∧
@@ -223,6 +235,28 @@ theorem err_create_no_residue (c : Cfg) (hP : 0 < c.P) (hw : c.wipe = true) (s :
     (∀ e ∈ (step c s t).2.m.rel, e.2 = 0) :=
   ⟨(err_create_kernel hP h ht t hop he).1, (err_create_kernel hP h ht t hop he).2.1,
    (err_create_kernel hP h ht t hop he).2.2, relz_step hw s t⟩
+
+/-- **the same over reachable states, hypothesis-free**: in every state the repaired model can
+reach (any oracle, any history), a constructor that answers `err` leaves all slots, every page's
+permission and lock flag, and the number of locked pages exactly as they were, and every block it
+released was zeroed (`inv_reachable` + `tight_reachable` discharge `Inv` and `Tight`) -/
+theorem err_create_no_residue_reachable (c : Cfg) (hP : 0 < c.P) (hw : c.wipe = true)
+    (hu : c.undo = true) (oracle : Nat → Bool) (toks : List Tok) (t : Tok) (hop : t.op ≠ .lock)
+    (he : (step c (runState c (State.init oracle) toks) t).1 = .err) :
+    let s := runState c (State.init oracle) toks
+    (step c s t).2.slots = s.slots ∧
+    (∀ p, (step c s t).2.m.k.perm p = s.m.k.perm p ∧ (step c s t).2.m.k.locked p = s.m.k.locked p) ∧
+    lockedPages (step c s t).2.m.k = lockedPages s.m.k ∧
+    (∀ e ∈ (step c s t).2.m.rel, e.2 = 0) :=
+  err_create_no_residue c hP hw _ (inv_runState hP toks (inv_init c oracle))
+    (tight_runState hP toks (inv_init c oracle) (tight_init c oracle) (Or.inl hu)) t hop he
+
+/-- non-vacuity witness (`err_create_no_residue_reachable`): a reachable state and a constructor
+that answers `err` in it -/
+example :
+    (step cBytes16 (runState cBytes16 (State.init fun _ => true)
+      [⟨.new, 0⟩, ⟨.lock, 0⟩, ⟨.failfrom 1, 0⟩]) ⟨.fsl 9, 0⟩).1 = .err ∧
+    (⟨.fsl 9, 0⟩ : Tok).op ≠ .lock ∧ cBytes16.wipe = true ∧ cBytes16.undo = true := by decide
 
 /-- … and the release is not vacuous: a failed `from_slice_into_locked` / `…_readonly_locked` of
 `n` bytes into a resizable container releases exactly the block it had sized (`growCap 0 n` bytes) -/
